@@ -126,7 +126,11 @@ def r3(c):
     P = c.P
     BOUNDED = {
         'rodbus::tcp::frame::MbapParser::parse': 'two-state machine: Begin -> Header -> return; each turn either returns or consumes the header',
+        'rodbus::serial::frame::RtuParser::parse': 'three-state machine: Start -> (ReadToOffsetForLength ->) ReadFullBody -> return; each turn (recursive call or loop iteration) follows a state advance',
     }
+
+    def state_nodes(b):
+        return {('b', i) for i, s in b.assigns() if s['pl']['p'] and s['pl']['p'][-1].endswith(':state')}
     n = 0
     for b in P.all_bodies(crate='rodbus'):
         if b.kind in ('Static', 'Const') or b.is_promoted:
@@ -145,12 +149,29 @@ def r3(c):
                     iter_driven = True
             mac = [cs for cs in b.calls() if cs.node in cyc and cs.exp and (cs.mac.startswith('tracing') or 'fmt' in cs.mac)]
             fn_ = P.logical_name(b)
-            ok = has_yield or iter_driven or fn_ in BOUNDED
-            how = 'awaits' if has_yield else ('iterator-driven' if iter_driven else ('recorded: ' + BOUNDED.get(fn_, '')) if fn_ in BOUNDED else 'none')
+            machine = False
+            if fn_ in BOUNDED and not (has_yield or iter_driven):
+                # necessary condition re-checked for a recorded state machine: no turn of the loop without a state assignment
+                sn = state_nodes(b)
+                machine = bool(sn) and not any(nd in b.reach_set(nd, avoid=sn) for nd in cyc if nd not in sn)
+            ok = has_yield or iter_driven or machine
+            how = 'awaits' if has_yield else ('iterator-driven' if iter_driven else ('recorded: ' + BOUNDED.get(fn_, '')) if machine else ('recorded state machine, but a turn of the loop without a state assignment exists' if fn_ in BOUNDED else 'none'))
             seen_l = c.__dict__.setdefault('_loopn', {})
             seen_l[fn_] = seen_l.get(fn_, 0) + 1
             c.ob('loop/%s#%d' % (fn_, seen_l[fn_]), ok, 'loop makes progress: contains an await, or ends when a finite iterator is exhausted, or is a recorded bounded state machine', how, loc_of(b, min(nd[1] for nd in cyc if nd[0] == 'b')), examined=1)
     c.floor('loops examined', n, 20)
+    # direct recursion is a loop too
+    for b in P.all_bodies(crate='rodbus'):
+        if b.kind in ('Static', 'Const') or b.is_promoted:
+            continue
+        fn_ = P.logical_name(b)
+        rec = [cs for cs in b.calls() if fn_ in cs.names()]
+        if not rec:
+            continue
+        sn = state_nodes(b)
+        ok = fn_ in BOUNDED and bool(sn) and all(any(b.dominates(s_, cs.node) for s_ in sn) for cs in rec)
+        c.ob('recursion/%s' % fn_, ok, 'a function that calls itself is a recorded bounded state machine, and every recursive call follows a state assignment',
+             ('recorded: ' + BOUNDED[fn_]) if fn_ in BOUNDED else 'not recorded', rec[0].loc(), examined=len(rec))
     fx = c.FX.fn('posctl::loops::spin_until_flag')
     cyc = fx.cycles()
     c.control('a loop without await / iterator is reported', bool(cyc) and not any(nd[0] == 'b' and fx.blocks[nd[1]]['term']['t'] == 'yield' for nd in cyc[0]) and not [cs for cs in fx.calls() if _is_iter_next(cs)])
@@ -229,11 +250,7 @@ def r4(c):
     c.ob('wrapper/From<Shutdown>', len(xs) == 1 and xs[0]['kind'] == 'agg' and xs[0]['variant'] == 'Shutdown', 'From<Shutdown> for StateChange yields StateChange::Shutdown', '', loc_of(fr))
     ro = P.fn('rodbus::server::task::SessionTask::run_one')
     rcv = one(ro.calls('tokio::sync::mpsc::bounded::Receiver::recv'), 'commands.recv in run_one')
-    none = q.outcomes(ro, rcv).get('None', [])
-    okn = len(none) == 1
-    if okn:
-        xs = [x for x in q.exits(ro) if x['node'] in ro.reach_set(none[0]) and q.dom(ro, none[0], x['node'])]
-        okn = bool(xs) and all(x['kind'] == 'agg' and x['variant'] == 'Err' for x in xs)
+    okn, how, why = q.failure_leaves(ro, rcv)
     c.ob('wrapper/run_one', okn, 'run_one turns a closed command channel into Err(Shutdown)', '', rcv.loc())
 
 
